@@ -107,7 +107,9 @@ def get_ranges(headervalue, content_length):
         return None
     for brange in byteranges.split(','):
         start, sep, stop = (x.strip() for x in brange.partition('-'))
-        if not sep or not (start or stop) or not all(x.isdigit() for x in (start, stop) if x):
+        # 1*DIGIT (RFC 7233 2.1): ASCII digits only.  str.isdigit() alone also accepts
+        # characters such as U+00B2 or U+0663, which int() refuses or reads as a number.
+        if not sep or not (start or stop) or not all(x.isascii() and x.isdigit() for x in (start, stop) if x):
             # From rfc 7233 sec 2.1:
             # "A recipient of a byte-range-set that includes one or more
             # syntactically invalid byte-range-spec values MUST ignore the
